@@ -8,6 +8,7 @@ import (
 
 	"github.com/bobertlo/gmars"
 
+	"verif/gen"
 	"verif/hx"
 )
 
@@ -31,7 +32,11 @@ func genShiftCase(t *rapid.T) shiftCase {
 		c.K = rapid.IntRange(0, m-1).Draw(t, "k")
 	}
 	for range c.B.Ws {
-		c.Wraps = append(c.Wraps, rapid.IntRange(0, 2).Draw(t, "j"))
+		j := rapid.IntRange(0, 2).Draw(t, "j")
+		if gen.Rare(t, "hugej", 3) {
+			j = -1 // the largest 64-bit offset congruent to the shifted placement
+		}
+		c.Wraps = append(c.Wraps, j)
 	}
 	return c
 }
@@ -100,6 +105,11 @@ func judgeShiftCase(c shiftCase, rec *hx.Rec) string {
 			wrapped = true
 		}
 		offs2[i] = s + c.Wraps[i]*m
+		if c.Wraps[i] < 0 {
+			u := ^uint64(0)
+			u -= (u - uint64(s)) % uint64(m)
+			offs2[i] = int(u) // negative int = unsigned value 2^64+offs2[i]
+		}
 	}
 	a, wa, msg := buildPlain(c.B, c.B.Offs)
 	if msg != "" {
